@@ -27,7 +27,8 @@ type Options struct {
 	// timer deadline (the horizon of polling code). 0: 64; <0: never.
 	MaxAdvances int
 	// AdvanceCost is the deviation cost of advancing the clock while some
-	// goroutine could run (default 1). Advancing when nothing can run is free.
+	// goroutine could run (default 1; <0: free). Advancing when nothing can
+	// run is always free.
 	AdvanceCost int
 	// FreeGoroutines lists goroutine names whose scheduling is an enumeration
 	// dimension rather than a deviation: switching to or from them costs 0.
@@ -122,6 +123,8 @@ func Run(ch Chooser, opts Options, body func()) *Result {
 	}
 	if opts.AdvanceCost == 0 {
 		opts.AdvanceCost = 1
+	} else if opts.AdvanceCost < 0 {
+		opts.AdvanceCost = 0 // time is a free dimension
 	}
 	if opts.MaxAdvances == 0 {
 		opts.MaxAdvances = 64
@@ -418,7 +421,14 @@ func (s *Sched) dispatch(from *G) {
 }
 
 func (s *Sched) free(g *G) bool {
-	return s.opts.FreeGoroutines != nil && s.opts.FreeGoroutines[g.name]
+	if s.opts.FreeGoroutines == nil {
+		return false
+	}
+	name := g.name
+	if i := strings.IndexByte(name, '#'); i >= 0 {
+		name = name[:i]
+	}
+	return s.opts.FreeGoroutines[name]
 }
 
 func (s *Sched) endFrom(from *G) {
@@ -448,6 +458,22 @@ func Yield() {
 func YieldAt(label string) {
 	if s := active(); s != nil {
 		s.wait(alwaysReady, label)
+	}
+}
+
+// WaitFor blocks the running goroutine until cond holds (cond is evaluated by
+// the scheduler and must only read state).
+func WaitFor(cond func() bool, label string) {
+	if s := active(); s != nil {
+		s.wait(cond, label)
+	}
+}
+
+// AddAdvances extends the clock-advance horizon by n (used by harnesses when
+// the environment has finished, to give polling code its full set of polls).
+func AddAdvances(n int) {
+	if s := active(); s != nil {
+		s.opts.MaxAdvances = s.res.Advances + n
 	}
 }
 
